@@ -74,7 +74,7 @@ inline std::vector<Sched> schedulesFor(vh::Rng& r, bool thorough, int flavourTsa
 }
 
 //================================================================================================ single tree
-template <class E> void ompSingle(const fmm::Conf<E>& c, const std::vector<Sched>& scheds, Result& res, const char* tag, bool tsanLight) {
+template <class E, template <class, class, class> class Algo = TbfOpenmpAlgorithm> void ompSingle(const fmm::Conf<E>& c, const std::vector<Sched>& scheds, Result& res, const char* tag, bool tsanLight) {
     constexpr int D = E::Cfg::Dim;
     using Real = typename E::Cfg::RealType;
     const long N = long(c.parts.size());
@@ -94,7 +94,7 @@ template <class E> void ompSingle(const fmm::Conf<E>& c, const std::vector<Sched
         E::CheckedPoly::globalCtx() = &rc;
         vsched::configure(s.threads, s.policy, s.seed);
         {
-            auto algo = std::make_unique<TbfOpenmpAlgorithm<Real, typename E::CheckedPoly, typename E::Space>>(*pr.cfg, c.upper);
+            auto algo = std::make_unique<Algo<Real, typename E::CheckedPoly, typename E::Space>>(*pr.cfg, c.upper);
             algo->execute(*pr.tree);
         }
         const vsched::Log log = vsched::lastLog();
@@ -121,7 +121,7 @@ template <class E> void ompSingle(const fmm::Conf<E>& c, const std::vector<Sched
 }
 
 //================================================================================================ target/source
-template <class E> void ompTsm(const fmm::TsmConf<E>& c, const std::vector<Sched>& scheds, Result& res, const char* tag, bool tsanLight) {
+template <class E, template <class, class, class> class AlgoTsm = TbfOpenmpAlgorithmTsm> void ompTsm(const fmm::TsmConf<E>& c, const std::vector<Sched>& scheds, Result& res, const char* tag, bool tsanLight) {
     constexpr int D = E::Cfg::Dim;
     using Real = typename E::Cfg::RealType;
     fmm::TsmPolyRun<E> seq; seq.build(c);
@@ -138,7 +138,7 @@ template <class E> void ompTsm(const fmm::TsmConf<E>& c, const std::vector<Sched
         E::CheckedPoly::globalCtx() = &rc;
         vsched::configure(s.threads, s.policy, s.seed);
         {
-            auto algo = std::make_unique<TbfOpenmpAlgorithmTsm<Real, typename E::CheckedPoly, typename E::Space>>(*pr.cfg, c.upper);
+            auto algo = std::make_unique<AlgoTsm<Real, typename E::CheckedPoly, typename E::Space>>(*pr.cfg, c.upper);
             algo->execute(*pr.tree);
         }
         const vsched::Log log = vsched::lastLog();
